@@ -754,8 +754,9 @@ def ob_selftest(traces, workdir):
     cases.append(("last recorded reply dropped", d2, "obs", "reply-stream-corrupted"))
     f = cp(); f["obs"][-1]["chunks"][0] += 1
     cases.append(("size of the first recorded write of the server increased by one", f, "divs", None))
-    g = cp(); g["ob"][-1]["replies"][0] = {"k": "lock", "d": 4000}
-    cases.append(("size of the first reply in the generator's behaviour changed (class sequence no longer the printed one)", g, "binds", None))
+    # (changing a reply SIZE can leave its position class - hence the label - as it was; the printed label itself is changed)
+    g = cp(); g["ob"][-1]["pat"][0] = "selftest:" + str(g["ob"][-1]["pat"][0])
+    cases.append(("first class label printed by the generator changed (the class sequence recomputed from the recorded sizes is no longer the printed one)", g, "binds", None))
     os.makedirs(workdir, exist_ok=True)
     def one(arg):
         i, (desc, ev, tag, code) = arg
